@@ -142,3 +142,17 @@ func (h *hookedConfigs) Cron() (*configv1alpha1.CronExecutionConfig, error) {
 	}
 	return h.Configs.Cron()
 }
+
+// Drifted lists, per resource, the cached objects that code under test wrote through (FakeInformer.Drifted).
+func (i *Informers) Drifted() []string {
+	var out []string
+	for _, r := range []struct {
+		name string
+		inf  *FakeInformer
+	}{{"jobs", i.Jobs()}, {"jobconfigs", i.JobConfigs()}, {"pods", i.Pods()}} {
+		for _, k := range r.inf.Drifted() {
+			out = append(out, r.name+":"+k)
+		}
+	}
+	return out
+}
